@@ -342,6 +342,7 @@ class Tr:
         self.ind = 0
         self.in_loop = 0
         self.cond_depth = 0        # > 0 while translating an operand that Python may skip
+        self.checked = set()       # locals whose `None` check (`pyNotNone`) dominates the current statement
         self.fresh_chain = set()   # locals bound to a chain object that nothing else refers to yet
         self.gens = {}             # local name of a generator object -> element type
         self.loop_bodies = []      # enclosing loop bodies (for the snapshot check)
@@ -351,7 +352,14 @@ class Tr:
         return f'{base}_{self.tmp}'
     def emit(self, s): self.lines.append('  ' * self.ind + s)
 
+    def not_none(self, x):
+        """the implicit `None` check of an attribute read / subscript / method call; outside an operand Python may skip it
+        dominates everything that follows in the block (used by `logger_arg` to not repeat it)"""
+        if self.cond_depth == 0 and x.isidentifier(): self.checked.add(x)
+        return f'(← pyNotNone {x})'
+
     def invalidate(self, name):
+        self.checked.discard(esc(name))
         for k in [k for k in self.narrow if f"Name(id='{name}'" in k]: del self.narrow[k]
         self.fresh_chain.discard(name)
 
@@ -385,7 +393,7 @@ class Tr:
         if isinstance(e, ast.Attribute):
             x, t = self.expr(e.value)
             if is_opt(t) and t[1] in ATTRS:         # attribute of a possibly-None object: AttributeError
-                x, t = f'(← pyNotNone {x})', t[1]
+                x, t = self.not_none(x), t[1]
             if t in ATTRS and e.attr in ATTRS[t]:
                 rd, rt = ATTRS[t][e.attr]
                 return rd.format(x=x), rt
@@ -393,7 +401,7 @@ class Tr:
         if isinstance(e, ast.Subscript):
             x, t = self.expr(e.value)
             if is_opt(t) and t[1] in KEYS:          # subscript on a possibly-None object: TypeError
-                x, t = f'(← pyNotNone {x})', t[1]
+                x, t = self.not_none(x), t[1]
             if t in KEYS:
                 if isinstance(e.slice, ast.Constant) and e.slice.value in KEYS[t]:
                     rd, rt = KEYS[t][e.slice.value]
@@ -582,7 +590,7 @@ class Tr:
             try: recv, rt = self.expr(f.value)
             except Unsupported: recv, rt = None, None
             if is_opt(rt) and ((rt[1], f.attr) in self.by_method or (rt[1], f.attr) in EXTERN):
-                recv, rt = f'(← pyNotNone {recv})', rt[1]           # method of a possibly-None object: AttributeError
+                recv, rt = self.not_none(recv), rt[1]           # method of a possibly-None object: AttributeError
             g = self.by_method.get((rt, f.attr))
             if g is not None:
                 args = self.args_for(g.lean, [t for _, t in g.params[1:]], e.args)
@@ -707,6 +715,7 @@ class Tr:
         n0 = len(self.lines)
         saved_narrow = dict(self.narrow)
         saved_fresh = set(self.fresh_chain)
+        saved_checked = set(self.checked)
         if pre: pre()
         for st in stmts: self.stmt(st)
         if len(self.lines) == n0: self.emit('pure ()')
@@ -714,6 +723,7 @@ class Tr:
             del self.locals[v]; self.gens.pop(v, None)
         self.narrow = saved_narrow
         self.fresh_chain = saved_fresh
+        self.checked = saved_checked
         for n in assigned_names(stmts): self.invalidate(n)      # what the block re-assigned is no longer known
         self.ind -= 1
 
@@ -735,8 +745,54 @@ class Tr:
         raise Unsupported(f'cannot use {t} as {want}')
 
     # ---- statements
+    def logger_arg(self, e, guarded):
+        """an argument of a dropped `logger` call is still EVALUATED by Python.  Droppable (cannot raise): constants, names,
+        `%` / `+` of those, `x.attr` / `x['key']` on a local of a non-Optional (or narrowed) type with that attribute / key in
+        the type tables, `<str>.capitalize()`, `json.dumps(<droppable>, indent = <constant>)`, `logging.<LEVEL>`.  `x.attr`
+        / `x['key']` on a local whose type is Optional: Python's implicit `None` check is emitted in front of the next
+        statement (`pyNotNone`: AttributeError / TypeError, prelude convention 11) - not inside an `isEnabledFor` guard
+        (level dependent).  Everything else is refused."""
+        if isinstance(e, (ast.Constant, ast.Name)): return
+        if isinstance(e, ast.BinOp) and isinstance(e.op, (ast.Mod, ast.Add)):
+            self.logger_arg(e.left, guarded); self.logger_arg(e.right, guarded); return
+        if isinstance(e, ast.Tuple):
+            for x in e.elts: self.logger_arg(x, guarded)
+            return
+        if isinstance(e, ast.Attribute) and isinstance(e.value, ast.Name) and e.value.id == 'logging': return
+        if isinstance(e, (ast.Attribute, ast.Subscript)) and isinstance(e.value, ast.Name):
+            name = e.value.id
+            table = ATTRS if isinstance(e, ast.Attribute) else KEYS
+            if ast.dump(ast.Name(id=name, ctx=ast.Load())) in self.narrow: t = self.narrow[ast.dump(ast.Name(id=name, ctx=ast.Load()))][1]
+            elif name in self.locals: t = self.locals[name]
+            else: raise Unsupported(f'logger argument {ast.unparse(e)}: unknown name')
+            base = t[1] if is_opt(t) else t
+            if isinstance(e, ast.Attribute): known = base in table and e.attr in table[base]
+            elif is_const(e.slice): known = base in table and e.slice.value in table[base]
+            else:
+                self.dynamic_key(esc(name), e.slice); known = base == 'assocd'
+            if not known: raise Unsupported(f'logger argument {ast.unparse(e)}: not in the type tables')
+            if is_opt(t) and esc(name) not in self.checked:
+                if guarded: raise Unsupported(f'logger argument {ast.unparse(e)} may raise inside a logging-level guard')
+                self.emit(f'let _ ← pyNotNone {esc(name)}'); self.checked.add(esc(name))
+            return
+        if isinstance(e, ast.Call) and isinstance(e.func, ast.Attribute) and isinstance(e.func.value, ast.Name):
+            if e.func.value.id == 'json' and e.func.attr == 'dumps' and all(is_const(k.value) for k in e.keywords):
+                for x in e.args: self.logger_arg(x, guarded)
+                return
+            if e.func.attr == 'capitalize' and not e.args and not e.keywords and \
+                    (self.locals.get(e.func.value.id) == 'str' or e.func.value.id in self.const_loops): return
+        raise Unsupported(f'logger argument {ast.unparse(e)} may raise')
+
+    def dropped(self, st, guarded=False):
+        """a dropped statement: the arguments of a `logger` call are inspected (`logger_arg`)"""
+        if isinstance(st, ast.Expr) and is_logger_call(st.value):
+            for a in list(st.value.args) + [k.value for k in st.value.keywords]: self.logger_arg(a, guarded)
+        elif isinstance(st, ast.If):
+            for b in st.body: self.dropped(b, True)
+
     def stmt(self, st):
-        if is_dropped(st) or isinstance(st, ast.Pass): return
+        if is_dropped(st): return self.dropped(st)
+        if isinstance(st, ast.Pass): return
         if isinstance(st, (ast.Assign, ast.AnnAssign)): return self.assign(st)
         if isinstance(st, ast.Expr) and isinstance(st.value, ast.Call): return self.call_stmt(st.value)
         if isinstance(st, ast.If): return self.if_(st)
